@@ -51,17 +51,17 @@ theorem empty_rows_src (d : MD) :
       (fun row => iter_all (slice_iter row) (fun x => option_is_none x))) = d.emptyRows := by
   rw [array_rchunks_src]; rfl
 
-theorem length_takeWhile_le' {α : Type} (p : α → Bool) : ∀ l : List α, (l.takeWhile p).length ≤ l.length
+theorem takeWhile_length_le_src {α : Type} (p : α → Bool) : ∀ l : List α, (l.takeWhile p).length ≤ l.length
   | [] => Nat.le_refl _
   | a :: as => by
     simp only [List.takeWhile_cons]
     split
-    · simp only [List.length_cons]; have := length_takeWhile_le' p as; omega
+    · simp only [List.length_cons]; have := takeWhile_length_le_src p as; omega
     · simp
 
 theorem src_emptyRows_le (d : MD) : d.emptyRows ≤ 64 := by
   unfold MD.emptyRows
-  have h1 := length_takeWhile_le' (fun row : List (Option Color) => row.all Option.isNone) d.rows.reverse
+  have h1 := takeWhile_length_le_src (fun row : List (Option Color) => row.all Option.isNone) d.rows.reverse
   have h2 : d.rows.reverse.length = 64 := by rw [List.length_reverse]; exact chunks64_length 64 _
   omega
 
@@ -204,19 +204,12 @@ theorem Debug_fmt_text_src_eq_model (C : CT) (d : MD) (f : Formatter) (hv : Cell
     toOpt (Debug_fmt C d f) = some (f ++ d.debugText C) := by
   rw [Debug_fmt_src_eq_model C d f hv, renderDebug_eq_debugText]
 
-/-! ### `from_pattern` -/
+/-! ### `from_pattern`
 
-/-- the result of `from_pattern` with the kind of panic forgotten. -/
-def patOpt : PatRes → Option MD
-  | .ok d => some d
-  | _ => none
-
-/-- padding with `repeat(None)` on fuel, cut to `n`: the fuel does not matter once it is at least `n`. -/
-theorem take_pad_fuel (n fuel : Nat) (hf : n ≤ fuel) (cs : List (Option Color)) :
-    List.take n (cs ++ List.replicate fuel none) = List.take n (cs ++ List.replicate n none) := by
-  rw [List.take_append, List.take_append, List.take_replicate, List.take_replicate]
-  congr 2
-  omega
+`pattern_colors` is a LAZY iterator (`List (Panics (Option Color))`: the `map` closure calls `C::char_to_color`, which can
+panic); the final `for` loop pulls its 4096 elements one by one and stores them. `seqO` (EG/Lemmas/MockSrc.lean) is "pull
+everything, `none` at the first panic". The width / height / row assertions come first, so when the loop runs every row has
+at most 64 chars (`length_le_rowLen`: chars ≤ UTF-8 bytes) and there are at most 64 rows: no `take` cuts a converted char. -/
 
 /-- the conversion closure of `from_pattern`. -/
 def convSrc (C : CT) (c : Char) : Panics (Option Color) :=
@@ -234,77 +227,159 @@ theorem convSrc_eq (C : CT) (c : Char) : toOpt (convSrc C c) = convChar C c := b
     rw [← ColorMapping_char_to_color_src_eq_model]
     cases ColorMapping_char_to_color C c <;> rfl
 
-theorem mapP_convRow (C : CT) : ∀ row : List Char, toOpt (mapP (convSrc C) row) = convRow C row
+theorem seqO_convRow (C : CT) : ∀ row : List Char, seqO (row.map (convChar C)) = convRow C row
   | [] => rfl
   | c :: rest => by
-    have h1 := convSrc_eq C c
-    have h2 := mapP_convRow C rest
-    simp only [mapP, convRow]
-    rw [← h1, ← h2]
-    cases convSrc C c with
-    | panic m s => rw [bind_panic]; rfl
-    | ok v =>
-      rw [bind_ok]
-      cases mapP (convSrc C) rest with
-      | panic m s => rw [bind_panic]; rfl
-      | ok vs => rw [bind_ok]; rfl
+    have ih := seqO_convRow C rest
+    simp only [List.map_cons, seqO, convRow, ih]
+    cases convChar C c <;> cases convRow C rest <;> rfl
 
-/-- the row closure of `from_pattern`. -/
-def rowSrc (C : CT) (fuel : Nat) (row : List Char) : Panics (List (Option Color)) :=
-  (mapP (convSrc C) row).bind fun cs => MutRes.ok (List.take 64 (cs ++ List.replicate fuel none))
+theorem convRow_length (C : CT) (row : List Char) (cs : List (Option Color)) (h : convRow C row = some cs) :
+    cs.length = row.length := by
+  rw [← seqO_convRow] at h
+  have := seqO_length _ _ h
+  simpa using this
 
-theorem mapP_rows (C : CT) (fuel : Nat) (hf : 64 ≤ fuel) : ∀ pat : List (List Char),
-    toOpt (mapP (rowSrc C fuel) pat) = (convRows C pat).map (fun rows => rows.map padRow)
+theorem padRow_eq (cs : List (Option Color)) (h : cs.length ≤ 64) :
+    padRow cs = cs ++ List.replicate (64 - cs.length) none := by
+  unfold padRow
+  rw [List.take_append, List.take_of_length_le h, List.take_replicate]
+  congr 2
+  omega
+
+/-- the row closure of `from_pattern`: a lazy iterator of 64 cells. -/
+def rowLZ (C : CT) (fuel : Nat) (row : List Char) : List (Panics (Option Color)) :=
+  iter_take (iter_chain (iter_map_lazy (str_chars row) (convSrc C)) (iter_lift (iter_repeat fuel none))) 64
+
+theorem rowLZ_opt (C : CT) (fuel : Nat) (hf : 64 ≤ fuel) (row : List Char) (hr : row.length ≤ 64) :
+    seqO ((rowLZ C fuel row).map toOpt) = (convRow C row).map padRow := by
+  have hmap : (rowLZ C fuel row).map toOpt
+      = row.map (convChar C) ++ (List.replicate (64 - row.length) (none : Option Color)).map some := by
+    simp only [rowLZ, iter_take, iter_chain, iter_map_lazy, iter_lift, iter_repeat, str_chars]
+    rw [List.take_append, List.take_of_length_le (by simp; exact hr), List.map_append, List.map_map]
+    congr 1
+    · apply List.map_congr_left
+      intro c _
+      exact convSrc_eq C c
+    · simp only [List.length_map, List.map_take, List.map_map, List.map_replicate, List.take_replicate]
+      congr 1
+      omega
+  rw [hmap, seqO_append, seqO_some, seqO_convRow]
+  cases hc : convRow C row with
+  | none => rfl
+  | some cs =>
+    have hl := convRow_length C row cs hc
+    simp only [Option.bind_some, Option.map_some, Option.some.injEq]
+    rw [padRow_eq cs (by omega), hl]
+
+theorem rowLZ_length (C : CT) (fuel : Nat) (hf : 64 ≤ fuel) (row : List Char) : (rowLZ C fuel row).length = 64 := by
+  simp only [rowLZ, iter_take, iter_chain, iter_map_lazy, iter_lift, iter_repeat, str_chars, List.length_take,
+    List.length_append, List.length_map, List.length_replicate]
+  omega
+
+theorem flatLZ_opt (C : CT) (fuel : Nat) (hf : 64 ≤ fuel) : ∀ (pat : List (List Char)), (∀ row ∈ pat, row.length ≤ 64) →
+    seqO ((pat.flatMap (rowLZ C fuel)).map toOpt) = (convRows C pat).map (fun rows => rows.flatMap padRow)
+  | [], _ => rfl
+  | r :: rest, h => by
+    have ih := flatLZ_opt C fuel hf rest (fun row hr => h row (List.mem_cons_of_mem _ hr))
+    rw [List.flatMap_cons, List.map_append, seqO_append, rowLZ_opt C fuel hf r (h r List.mem_cons_self), ih]
+    simp only [convRows]
+    cases convRow C r <;> cases convRows C rest <;> simp
+
+theorem flatLZ_length (C : CT) (fuel : Nat) (hf : 64 ≤ fuel) : ∀ (pat : List (List Char)),
+    (pat.flatMap (rowLZ C fuel)).length = 64 * pat.length
   | [] => rfl
   | r :: rest => by
-    have h1 := mapP_convRow C r
-    have h2 := mapP_rows C fuel hf rest
-    simp only [mapP, convRows, rowSrc]
-    rw [← h1]
-    cases mapP (convSrc C) r with
-    | panic m s => simp only [bind_panic]; rfl
-    | ok cs =>
-      simp only [bind_ok]
-      cases hm : mapP (rowSrc C fuel) rest with
-      | panic m s =>
-        rw [hm] at h2
-        simp only [bind_panic, toOpt]
-        cases hc : convRows C rest with
-        | none => rfl
-        | some x => rw [hc] at h2; cases h2
-      | ok vs =>
-        rw [hm] at h2
-        simp only [bind_ok, toOpt]
-        cases hc : convRows C rest with
-        | none => rw [hc] at h2; cases h2
-        | some x =>
-          rw [hc] at h2
-          simp only [toOpt, Option.map_some, Option.some.injEq] at h2
-          subst h2
-          simp only [Option.map_some, List.map_cons, padRow, take_pad_fuel 64 fuel hf]
+    rw [List.flatMap_cons, List.length_append, rowLZ_length C fuel hf, flatLZ_length C fuel hf rest, List.length_cons]
+    omega
 
-/-- the body of the copy loop of `from_pattern`. -/
-def storeSrc (x : Nat × Option Color) (s : MD) : Panics MD :=
-  (array_set (MockDisplay_pixels s) x.1 x.2).bind fun v => MutRes.ok (MockDisplay_with_pixels s v)
+theorem length_le_rowLen : ∀ row : List Char, row.length ≤ rowLen row
+  | [] => Nat.le_refl _
+  | c :: rest => by
+    have := length_le_rowLen rest
+    have hc := Char.utf8Size_pos c
+    simp only [rowLen, List.map_cons, List.sum_cons, List.length_cons] at this ⊢
+    omega
 
-theorem store_loop : ∀ (L : List (Option Color)) (k : Nat) (d : MD), k + L.length = 4096 →
-    ∃ d', loopM storeSrc ((List.range' k L.length).zip L) d = .ok d' ∧
-      d'.pixels.toList = d.pixels.toList.take k ++ L ∧ d'.allowOverdraw = d.allowOverdraw ∧ d'.allowOob = d.allowOob
-  | [], k, d, h => by
-    refine ⟨d, rfl, ?_, rfl, rfl⟩
-    rw [List.append_nil, List.take_of_length_le (by simp at h; simp; omega)]
-  | a :: rest, k, d, h => by
+/-- the whole lazy iterator `pattern_colors`. -/
+def allLZ (C : CT) (fuel : Nat) (pat : List (List Char)) : List (Panics (Option Color)) :=
+  iter_take (iter_chain (iter_flat_map (slice_iter pat) (rowLZ C fuel)) (iter_lift (iter_repeat fuel none))) 4096
+
+theorem allLZ_length (C : CT) (fuel : Nat) (hf : 4096 ≤ fuel) (pat : List (List Char)) : (allLZ C fuel pat).length = 4096 := by
+  simp only [allLZ, iter_take, iter_chain, iter_flat_map, iter_lift, iter_repeat, slice_iter, List.length_take,
+    List.length_append, List.length_map, List.length_replicate]
+  omega
+
+theorem allLZ_opt (C : CT) (fuel : Nat) (hf : 4096 ≤ fuel) (pat : List (List Char)) (hp : pat.length ≤ 64)
+    (hr : ∀ row ∈ pat, row.length ≤ 64) :
+    seqO ((allLZ C fuel pat).map toOpt) = (convRows C pat).map patternColors := by
+  have hlen := flatLZ_length C fuel (by omega) pat
+  have hmap : (allLZ C fuel pat).map toOpt
+      = (pat.flatMap (rowLZ C fuel)).map toOpt ++ (List.replicate (4096 - 64 * pat.length) (none : Option Color)).map some := by
+    simp only [allLZ, iter_take, iter_chain, iter_flat_map, iter_lift, iter_repeat, slice_iter]
+    rw [List.take_append, List.take_of_length_le (by rw [hlen]; omega), List.map_append]
+    congr 1
+    simp only [hlen, List.map_take, List.map_map, List.map_replicate, List.take_replicate]
+    congr 1
+    omega
+  rw [hmap, seqO_append, seqO_some, flatLZ_opt C fuel (by omega) pat hr]
+  cases hc : convRows C pat with
+  | none => rfl
+  | some rows =>
+    have hl := convRows_length C pat rows hc
+    have hfl := flatMap_padRow_length rows
+    simp only [Option.map_some, Option.bind_some, Option.some.injEq]
+    unfold patternColors
+    rw [List.take_append, List.take_of_length_le (by rw [hfl]; omega), List.take_replicate, hfl, hl]
+    congr 2
+    omega
+
+/-- the body of the copy loop of `from_pattern`: pull the element (run its computation), store it. -/
+def storeLZ (x : Nat × Panics (Option Color)) (s : MD) : Panics MD :=
+  x.2.bind fun c => (array_set (MockDisplay_pixels s) x.1 c).bind fun v => MutRes.ok (MockDisplay_with_pixels s v)
+
+/-- the copy loop: if every pulled computation yields a value the display ends up holding exactly those values
+(`cells`), and the loop panics exactly when one of them panics. -/
+theorem storeLZ_loop : ∀ (LZ : List (Panics (Option Color))) (k : Nat) (d : MD), k + LZ.length = 4096 →
+    ∀ pre : List (Option Color), d.pixels.toList.take k = pre → d.allowOverdraw = false → d.allowOob = false →
+    toOpt (loopM storeLZ ((List.range' k LZ.length).zip LZ) d)
+      = (seqO (LZ.map toOpt)).bind (fun L => if h : (pre ++ L).length = 4096
+          then some ⟨⟨(pre ++ L).toArray, by simpa using h⟩, false, false⟩ else none)
+  | [], k, d, h, pre, hpre, ho, hb => by
+    have hk : k = 4096 := by simpa using h
+    have hl : pre = d.pixels.toList := by rw [← hpre, List.take_of_length_le (by simp; omega)]
+    simp only [List.length_nil, List.range'_zero, List.zip_nil_left, loopM, toOpt, List.map_nil, seqO, Option.bind_some,
+      List.append_nil]
+    have hlen : pre.length = 4096 := by rw [hl]; simp
+    simp only [hlen, ↓reduceDIte, Option.some.injEq]
+    obtain ⟨px, o, b⟩ := d
+    simp only at ho hb hl
+    subst ho hb
+    congr 1
+    apply Vector.toList_inj.mp
+    simp [hl]
+  | a :: rest, k, d, h, pre, hpre, ho, hb => by
     have hk : k < 4096 := by simp at h; omega
-    obtain ⟨d', h1, h2, h3, h4⟩ := store_loop rest (k + 1) { d with pixels := d.pixels.set k a hk } (by simp at h ⊢; omega)
-    refine ⟨d', ?_, ?_, h3, h4⟩
-    · rw [List.length_cons, List.range'_succ, List.zip_cons_cons]
-      simp only [loopM, storeSrc, array_set, MockDisplay_pixels, hk, ↓reduceDIte, bind_ok, MockDisplay_with_pixels]
-      exact h1
-    · rw [h2]
-      simp only [Vector.toList_set]
-      rw [List.take_succ_eq_append_getElem (by simp; omega), List.take_set_of_le (Nat.le_refl k), List.getElem_set_self,
-        List.append_assoc]
-      rfl
+    rw [List.length_cons, List.range'_succ, List.zip_cons_cons]
+    cases a with
+    | panic m s => simp only [loopM, storeLZ, bind_panic, toOpt, List.map_cons, seqO, Option.bind_none]
+    | ok v =>
+      have ih := storeLZ_loop rest (k + 1) { d with pixels := d.pixels.set k v hk } (by simp at h ⊢; omega) (pre ++ [v])
+        (by
+          simp only [Vector.toList_set]
+          rw [List.take_succ_eq_append_getElem (by simp; omega), List.take_set_of_le (Nat.le_refl k), List.getElem_set_self,
+            hpre]) ho hb
+      simp only [loopM, storeLZ, bind_ok, array_set, MockDisplay_pixels, hk, ↓reduceDIte, MockDisplay_with_pixels]
+      rw [ih]
+      simp only [List.map_cons, toOpt, seqO, Option.bind_some]
+      cases seqO (rest.map toOpt) with
+      | none => rfl
+      | some L => simp only [Option.bind_some, List.append_assoc, List.singleton_append]
+
+/-- the result of `from_pattern` with the kind of panic forgotten. -/
+def patOpt : PatRes → Option MD
+  | .ok d => some d
+  | _ => none
 
 /-- the loop over the rows with the `assert_eq!` of the row width. -/
 def rowAssertSrc (W : Nat) (x : Nat × List Char) (u : PUnit) : Panics PUnit :=
@@ -337,16 +412,17 @@ theorem width_src (C : CT) (pat : List (List Char)) :
   | nil => exact ⟨0, rfl, rfl⟩
   | cons r rest => exact ⟨rowLen r, rfl, rfl⟩
 
-theorem flat_map_rw (C : CT) (fuel : Nat) (pat : List (List Char)) (g : List Char → Panics (List (Option Color)))
-    (h : ∀ row, g row = rowSrc C fuel row) :
-    iter_flat_map_p (slice_iter pat) g = (mapP (rowSrc C fuel) pat).bind (fun ls => MutRes.ok ls.flatten) := by
-  have : g = rowSrc C fuel := funext h
-  subst this; rfl
-
 theorem toOpt_none {σ α : Type} {r : MutRes σ α} (h : toOpt r = none) : ∃ m s, r = .panic m s := by
   cases r with
   | ok v => cases h
   | panic m s => exact ⟨m, s, rfl⟩
+
+
+theorem allLZ_rw (C : CT) (fuel : Nat) (pat : List (List Char)) (g : List Char → List (Panics (Option Color)))
+    (h : ∀ row, g row = rowLZ C fuel row) :
+    iter_take (iter_chain (iter_flat_map (slice_iter pat) g) (iter_lift (iter_repeat fuel none))) 4096 = allLZ C fuel pat := by
+  have : g = rowLZ C fuel := funext h
+  subst this; rfl
 
 /-- `from_pattern`: panics on exactly the patterns the model rejects (width in bytes of the first row, height, ragged
 rows, a character the type does not accept), and otherwise builds the model's display (`fuel` is what `iter::repeat` runs
@@ -392,49 +468,34 @@ theorem MockDisplay_from_pattern_src_eq_model (C : CT) (fuel : Nat) (pat : List 
   simp only [h3, ↓reduceIte] at hrows
   obtain ⟨_, hok⟩ := toOpt_eq_some hrows
   simp only [hok, bind_ok, h3, not_true_eq_false, ↓reduceIte]
-  -- the conversion
-  rw [flat_map_rw C fuel pat _ (by intro row; rfl)]
-  have hconv := mapP_rows C fuel (by omega) pat
-  cases hm : mapP (rowSrc C fuel) pat with
-  | panic m s =>
-    rw [hm] at hconv
-    cases hc : convRows C pat with
-    | none => simp only [bind_panic, toOpt, patOpt]
-    | some rows => rw [hc] at hconv; cases hconv
-  | ok ls =>
-    rw [hm] at hconv
-    cases hc : convRows C pat with
-    | none => rw [hc] at hconv; cases hconv
-    | some rows =>
-      rw [hc] at hconv
-      simp only [toOpt, Option.map_some, Option.some.injEq] at hconv
-      subst hconv
-      have hmul : usize_mul 64 64 = .ok 4096 := by simp [usize_mul, U64]
-      simp only [bind_ok, iter_take, iter_chain, iter_repeat, patOpt, hmul]
-      have hL : List.take 4096 ((rows.map padRow).flatten ++ List.replicate fuel none) = patternColors rows := by
-        unfold patternColors
-        rw [take_pad_fuel 4096 fuel hf, List.flatMap_def]
-      rw [hL]
-      rw [forIn_yield' _ storeSrc (by
-        intro x s
-        unfold storeSrc
-        rw [bind_assoc]; congr 1)]
-      have hlen := patternColors_length rows
-      obtain ⟨d', hd1, hd2, hd3, hd4⟩ := store_loop (patternColors rows) 0 MD.new (by rw [hlen])
-      have henum : iter_enumerate (patternColors rows)
-          = (List.range' 0 (patternColors rows).length).zip (patternColors rows) := by
-        simp only [iter_enumerate, List.range_eq_range']
-      rw [henum, hd1, bind_ok]
-      simp only [toOpt, Option.some.injEq]
-      obtain ⟨px, o, b⟩ := d'
-      simp only [List.take_zero, List.nil_append] at hd2
-      have hp : px = cellsOfPattern rows := by
-        apply Vector.toList_inj.mp
-        rw [hd2]
-        simp [cellsOfPattern]
-      simp only at hd3 hd4
-      rw [hp, hd3, hd4]
-      rfl
+  -- the lazy iterator and the copy loop that pulls it
+  have hmul : usize_mul 64 64 = .ok 4096 := by simp [usize_mul, U64]
+  simp only [hmul, bind_ok]
+  rw [allLZ_rw C fuel pat _ (by intro row; rfl)]
+  rw [forIn_yield' _ storeLZ (by
+    intro x s
+    unfold storeLZ
+    rw [bind_assoc]; congr 1; funext c
+    rw [bind_assoc]; congr 1
+    try (funext v; rw [bind_ok]))]
+  have hrl : ∀ row ∈ pat, row.length ≤ 64 := by
+    intro row hrow
+    have := (List.all_eq_true.mp h3) row hrow
+    have hw : rowLen row = W := by simpa using this
+    have := length_le_rowLen row
+    omega
+  have henum : iter_enumerate (allLZ C fuel pat)
+      = (List.range' 0 (allLZ C fuel pat).length).zip (allLZ C fuel pat) := by
+    simp only [iter_enumerate, List.range_eq_range']
+  rw [henum, bind_ok_right,
+    storeLZ_loop (allLZ C fuel pat) 0 MD.new (by rw [allLZ_length C fuel hf]) [] (by simp) rfl rfl,
+    allLZ_opt C fuel hf pat h2 hrl]
+  cases hc : convRows C pat with
+  | none => rfl
+  | some rows =>
+    have hlen := patternColors_length rows
+    simp only [Option.map_some, Option.bind_some, List.nil_append, hlen, ↓reduceDIte, patOpt]
+    rfl
 
 
 example : (4096 : Nat) ≤ 4096 := Nat.le_refl _
